@@ -73,6 +73,7 @@ func TestMain(m *testing.M) {
 	}
 	ops.DefaultEnv.Scratch = filepath.Join(scratch, fmt.Sprintf("inproc.%d", os.Getpid()))
 	os.MkdirAll(ops.DefaultEnv.Scratch, 0o755)
+	os.Setenv("HOME", filepath.Join(ops.DefaultEnv.Scratch, "verif-home")) // (does not exist; see ops.WorkerMain)
 	loadKnown()
 	code := m.Run()
 	closePools()
@@ -416,6 +417,9 @@ func pool(mode string) *ops.Pool {
 	case "race":
 		p.Bin = raceBin
 		p.Race = true
+	case "single":
+		// a process that starts with one P (a one-CPU container): package-level sizing decisions see GOMAXPROCS == 1
+		p.Env = []string{"GOMAXPROCS=1"}
 	}
 	pools[mode] = p
 	return p
